@@ -70,7 +70,63 @@ def jobs(pid, tier, seed):
         elif i % 25 == 3:
             k = "long"
         out.append({"kind": k, "seed": seed * 1000003 + i})
+    out += [{"kind": "crashimg", "seed": seed * 1000 + i} for i in range(12 if tier == "quick" else 150)]
     return out
+
+
+def run_crash_images(acc, seed):
+    """Whatever a crash leaves behind (a mailbox without side rows, a nameplate whose claims are all released,
+    half a close ...), a restarted service sweeps it completely once nobody returns: every commit boundary of a
+    short two-app history is restarted, run for expiry + 2 periods, and must end with an empty store."""
+    import os, random
+    from .c10 import Imager, copy_db_files
+    from ..engine import new_workdir, rmtree
+    from ..scenarios import HB, claimed
+    r = random.Random(seed)
+    cfg = cfg_for(seed)
+    b = HB()
+    b.adv(r.choice([0.125, 3.5, 61]))
+    for app in ("app", "app2"):
+        A = b.conn(app, "s1")
+        b.send(A, type="claim", nameplate="4")
+        B = b.conn(app, "s2")
+        b.send(B, type="allocate")
+        b.send(B, type="claim", nameplate="4")
+        b.send(B, type="open", mailbox="mS." + app)
+        b.send(B, type="add", phase="p", body="c13-" + app)
+        b.send(A, type="open", mailbox=claimed(A))
+        b.send(A, type="add", phase="p", body="c13b-" + app)
+        b.send(A, type="release")
+        b.send(B, type="release", nameplate="4")
+        b.send(B, type="close", mood="happy")
+        b.send(A, type="close", mood="happy")
+    root = new_workdir("c13i")
+    imager = Imager(os.path.join(root, "images"))
+    ex = Exec(cfg, seed=seed, track=False)
+    try:
+        ex.world.commit_hooks.append(imager)
+        ex.run(b.h)
+        imager.enabled = False
+    finally:
+        ex.close()
+    try:
+        for img in imager.images:
+            wd = new_workdir("c13r")
+            copy_db_files(img["dir"], wd)
+            ex2 = Exec(cfg, seed=seed, workdir=wd, t0=img["t"])
+            try:
+                ex2.start()
+                ex2.quiesce()
+                base = {"property": "C13", "kind": "crashimg", "cfg": cfg.to_json(), "seed": seed,
+                        "case": "crashimg:%d@%d" % (seed, img["n"]), "history": b.h}
+                acc.cases += 1
+                acc.ev["c13_crash_image_swept"] += 1
+                acc.absorb_tracker(ex2.tracker, ex2.world, "crashimg:%d:%d" % (seed, img["n"]), base, KEYS)
+            finally:
+                ex2.close()
+                rmtree(wd)
+    finally:
+        rmtree(root)
 
 
 def run_job(pid, job, acc):
@@ -79,6 +135,8 @@ def run_job(pid, job, acc):
         for case, hist, cfg, opts in scenarios.build(pid, job["name"], job["params"]):
             run_hist(acc, hist, cfg, 0, case, nontrivial_keys=KEYS, keep_sample=(len(acc.samples) < 2), **opts)
         return
+    if k == "crashimg":
+        return run_crash_images(acc, job["seed"])
     s = job["seed"]
     hist = generate(s, **GEN)
     cfg = cfg_for(s)
@@ -103,6 +161,10 @@ def run_job(pid, job, acc):
 
 def replay(pid, rep):
     case = rep.get("case", "")
+    if rep.get("kind") == "crashimg":
+        acc = Acc(pid)
+        run_crash_images(acc, rep["seed"])
+        return acc
     if case.startswith(("faulty", "locked", "long")):
         acc = Acc(pid)
         k, s = case.split(":")
